@@ -24,6 +24,10 @@ message_reader.go (D14 belongs to C02; the driver counts panics on cut fetch res
 import KafkaVerif.Props.C11
 import KafkaVerif.Lemmas.TransportConnC17
 import KafkaVerif.Props.C02
+import KafkaVerif.Props.C01
+import KafkaVerif.Model.SplitMerge
+import KafkaVerif.Lemmas.CodecAcct
+import KafkaVerif.Gen.DecoderCfg
 
 namespace KV.C17
 open KV KV.Reader KV.ConnOps
@@ -74,18 +78,69 @@ theorem dead_stream_fails (o : OpSpec) (v : Nat) (topic : Bytes) (c : Conn) (hde
   | true => exact (C11.closed_stays_failed o v topic c hc).1
   | false => exact (cut_in_header_is_error o v topic c hc (by rw [hdead]; decide)).1
 
+/-! ### a cut anywhere in a run of operations
+
+`C11.sequence_aligned` gives the operations before the cut (each as alone on a fresh connection); the operation whose
+response is cut fails and closes the Conn; every later one fails.  For every number of operations, every position of
+the cut inside (or at the start of) a response, every byte content. -/
+
+theorem seqWF_append (a b : List C11.Exch) (id : Int) :
+    C11.seqWF (a ++ b) id ↔ C11.seqWF a id ∧ C11.seqWF b (id + a.length) := by
+  induction a generalizing id with
+  | nil => simp [C11.seqWF]
+  | cons x r ih =>
+    simp only [List.cons_append, C11.seqWF, ih, List.length_cons, and_assoc]
+    have : id + 1 + (r.length : Int) = id + ((r.length + 1 : Nat) : Int) := by omega
+    rw [this]
+
+theorem runOps_append (topic : Bytes) (a b : List C11.Exch) (c : Conn) :
+    C11.runOps topic (a ++ b) c =
+      ((C11.runOps topic a c).1 ++ (C11.runOps topic b (C11.runOps topic a c).2).1,
+       (C11.runOps topic b (C11.runOps topic a c).2).2) := by
+  induction a generalizing c with
+  | nil => rfl
+  | cons x r ih => simp only [List.cons_append, C11.runOps, ih]
+
+theorem cut_in_sequence (topic : Bytes) (pre : List C11.Exch) (e : C11.Exch) (post : List C11.Exch) (c : Conn) (k : Nat)
+    (hopen : c.closed = false) (hwf : C11.seqWF (pre ++ [e]) c.nextId)
+    (hpre : (C11.expectedOuts topic pre).all (fun o => !o.isFail) = true)
+    (hk : k < 8 + e.body.length)
+    (hs : c.stream = C11.streamOf pre ++ (e.hdr ++ e.body).take k) :
+    ∃ out, out.isFail = true ∧
+      (C11.runOps topic (pre ++ e :: post) c).1 =
+        C11.expectedOuts topic pre ++ out :: post.map (fun _ => C11.closedOutcome) ∧
+      (C11.runOps topic (pre ++ e :: post) c).2.closed = true := by
+  obtain ⟨hwp, hwe⟩ := (seqWF_append pre [e] c.nextId).1 hwf
+  obtain ⟨⟨hlen, hsize, hid, hgood, hclose⟩, _⟩ := hwe
+  obtain ⟨ho, hc⟩ := C11.sequence_aligned topic pre c _ hopen hwp hs
+  have hc1 := hc hpre
+  -- the Conn after the complete exchanges: open, positioned at the cut response
+  have hcut : (connDo e.o e.v topic (C11.runOps topic pre c).2).1.isFail = true ∧
+      (connDo e.o e.v topic (C11.runOps topic pre c).2).2.closed = true := by
+    rw [hc1]
+    by_cases h8 : k < 8
+    · exact cut_in_header_is_error e.o e.v topic _ rfl (by simp only [List.length_take, List.length_append]; omega)
+    · have hsplit : (e.hdr ++ e.body).take k = e.hdr ++ e.body.take (k - 8) := by
+        rw [List.take_append, List.take_of_length_le (by omega), hlen]
+      exact cut_is_error e.o e.v topic _ e.hdr (e.body.take (k - 8)) e.body.length hgood hclose rfl
+        (by simp only [hsplit]) hlen hsize (by simpa using hid) (by simp only [List.length_take]; omega)
+  refine ⟨(connDo e.o e.v topic (C11.runOps topic pre c).2).1, hcut.1, ?_, ?_⟩
+  · rw [runOps_append, ho]
+    simp only [C11.runOps, C11.runOps_closed topic post _ hcut.2]
+  · rw [runOps_append]
+    simp only [C11.runOps, C11.runOps_closed topic post _ hcut.2, hcut.2]
+
 /-- fetch on a cut stream: never a complete batch; a kafka error can only come with a used-up stream -/
 theorem fetch_cut_is_error (v : Nat) (offset : Int) (b : Body) (c : Conn) (hdr tail : Bytes) (n : Nat)
     (hb : b.Conserves) (hopen : c.closed = false)
     (hstream : c.stream = hdr ++ tail) (hlen : hdr.length = 8)
     (hsize : beInt (hdr.take 4) = n + 4) (hid : beInt (hdr.drop 4) = c.nextId)
-    (hcut : tail.length < n)
-    (hwf : ∀ cx s1, runSteps (fetchHeader v) { ver := v } ⟨tail, n⟩ = (.ok cx, s1) → cx.hwm = offset → s1.sz = 0) :
+    (hcut : tail.length < n) :
     (connFetch true v offset b c).1 ≠ .ok ∧
     ((connFetch true v offset b c).1.isFail = true → (connFetch true v offset b c).2.closed = true) ∧
     ((connFetch true v offset b c).1.isFail = false → (connFetch true v offset b c).2.stream = []) := by
   have hw := C11.wait_hdr c hdr tail n hstream hlen hsize hid
-  have hf := fetchRead_cut v offset b ⟨tail, n⟩ hb hcut hwf
+  have hf := fetchRead_cut v offset b ⟨tail, n⟩ hb hcut
   unfold connFetch
   simp only [hopen, Bool.false_eq_true, ↓reduceIte, hw]
   refine ⟨hf.1, ?_, hf.2⟩
@@ -134,6 +189,41 @@ theorem produce_frame_every_cut :
         r.1.isFail && r.2.closed
       | none => false) = true := by decide
 
+/-- the un-framed sasl token exchange: an answer announcing n bytes of which fewer arrive (or whose 4-byte length is
+itself cut) is an error, at every cut position -/
+theorem raw_token_cut_is_error (inp : Bytes) (h : inp.length < 4 ∨ (0 ≤ beInt (inp.take 4) ∧ (inp.length : Int) < 4 + beInt (inp.take 4))) :
+    (rawToken inp).1.isFail = true := by
+  unfold rawToken readInt peekRead
+  by_cases h4 : inp.length < 4
+  · simp [h4, Outcome.isFail]
+  · have hn : ¬ (4 > 4) := by omega
+    simp only [gt_iff_lt, Nat.lt_irrefl, ↓reduceIte, h4]
+    rcases h with h | h
+    · omega
+    · by_cases hneg : beInt (inp.take 4) < 0
+      · simp [hneg, Outcome.isFail]
+      · simp only [hneg, ↓reduceIte]
+        have hc := cut_is_error_generic (conserves_readNewBytes (beInt (inp.take 4)) ⟨inp.drop 4, (beInt (inp.take 4)).toNat⟩)
+          (by simp only [List.length_drop]; omega)
+        cases hr : readNewBytes (beInt (inp.take 4)) ⟨inp.drop 4, (beInt (inp.take 4)).toNat⟩ with
+        | mk r s' =>
+          cases r with
+          | error e => simp [Outcome.isFail]
+          | ok b =>
+            -- an ok result of readNewBytes has consumed everything announced
+            exfalso
+            rw [hr] at hc
+            unfold readNewBytes at hr
+            by_cases h0 : beInt (inp.take 4) ≤ 0
+            · have : beInt (inp.take 4) = 0 := by omega
+              simp only [this, Int.le_refl, ↓reduceIte, Prod.mk.injEq] at hr
+              rw [← hr.2] at hc; simp [this] at hc
+            · simp only [h0, ↓reduceIte, Nat.min_self, Nat.lt_irrefl] at hr
+              split at hr
+              · cases hr
+              · simp only [Prod.mk.injEq] at hr
+                rw [← hr.2] at hc; simp at hc
+
 /-! ### Transport path: a failed connection is never used again, the next request runs on another one
 
 Model/TransportConn.lean: the life cycle of transport.go's connections as an LTS whose events are the existing
@@ -141,18 +231,22 @@ Model/TransportConn.lean: the life cycle of transport.go's connections as an LTS
 (Client / Writer over a real kafka.Transport against the fake broker, response cut at byte k, then follow-up calls). -/
 
 open KV.TransportConn in
-/-- for ALL event sequences the LTS accepts: after an exchange on c failed (T.Done c, not ok, not ErrNoRecord) no later
-event grabs c, receives a request on it, completes an exchange on it, releases it to the idle stack or removes it from
-there — c can only exit — and it is still dead at the end. -/
-theorem failed_conn_never_reused (s0 s3 : State) (pre post : List TransportConn.Ev) (c : Nat)
-    (h : run s0 (pre ++ [TransportConn.Ev.done c false false] ++ post) = some s3) :
+/-- the fact the LTS is parameterised by, as regenerated from transport.go `(*conn).run` now -/
+theorem transport_drops_failed : Gen.ConnLegacy.transportFacts.dropFailed = true := by decide
+
+open KV.TransportConn in
+/-- for ALL event sequences the LTS accepts (with the regenerated fact): after an exchange on c failed (T.Done c, not ok,
+not ErrNoRecord) no later event grabs c, receives a request on it, completes an exchange on it, releases it to the idle
+stack or removes it from there — c can only exit — and it is still dead at the end. -/
+theorem failed_conn_never_reused (f : TFacts) (hf : f.dropFailed = true) (s0 s3 : State) (pre post : List TransportConn.Ev) (c : Nat)
+    (h : run f s0 (pre ++ [TransportConn.Ev.done c false false] ++ post) = some s3) :
     (∀ e ∈ post, uses c e = false) ∧ dead s3 c := by
   rw [List.append_assoc, run_append] at h
-  cases h1 : run s0 pre with
+  cases h1 : run f s0 pre with
   | none => simp [h1] at h
   | some s1 =>
     simp only [h1, Option.bind_some, List.singleton_append, run] at h
-    cases h2 : step s1 (TransportConn.Ev.done c false false) with
+    cases h2 : step f s1 (TransportConn.Ev.done c false false) with
     | none => simp [h2] at h
     | some s2 =>
       simp only [h2] at h
@@ -160,34 +254,38 @@ theorem failed_conn_never_reused (s0 s3 : State) (pre post : List TransportConn.
         simp only [step, Bool.or_self, Bool.false_eq_true, ↓reduceIte] at h2
         obtain ⟨st, hg, _, rfl⟩ := move_spec h2
         exact Or.inl (get_set_same _ hg)
-      have := dead_run post hd h
+      have := dead_run hf post hd h
       exact ⟨this.2, this.1⟩
 
 open KV.TransportConn in
 /-- so the request after a cut runs on a different connection: whatever is grabbed or created later is not c, and a
 grabbed connection is one that sits on the idle stack (released after a completed exchange, or never used). -/
-theorem resume_after_cut (s0 s3 : State) (pre post : List TransportConn.Ev) (c : Nat)
-    (h : run s0 (pre ++ [TransportConn.Ev.done c false false] ++ post) = some s3) :
+theorem resume_after_cut (f : TFacts) (hf : f.dropFailed = true) (s0 s3 : State) (pre post : List TransportConn.Ev) (c : Nat)
+    (h : run f s0 (pre ++ [TransportConn.Ev.done c false false] ++ post) = some s3) :
     (∀ c', TransportConn.Ev.grab c' ∈ post → c' ≠ c) ∧ (∀ c' g, TransportConn.Ev.new c' g ∈ post → c' ≠ c) ∧ (∀ c', TransportConn.Ev.recv c' ∈ post → c' ≠ c) := by
-  have hu := (failed_conn_never_reused s0 s3 pre post c h).1
+  have hu := (failed_conn_never_reused f hf s0 s3 pre post c h).1
   refine ⟨fun c' hm hc => ?_, fun c' g hm hc => ?_, fun c' hm hc => ?_⟩ <;>
     · have := hu _ hm
       subst hc
       simp [uses] at this
 
 open KV.TransportConn in
-theorem grab_takes_idle (s s' : State) (c : Nat) (h : step s (TransportConn.Ev.grab c) = some s') : get s c = some St.idle := by
+theorem grab_takes_idle (f : TFacts) (s s' : State) (c : Nat) (h : step f s (TransportConn.Ev.grab c) = some s') : get s c = some St.idle := by
   obtain ⟨st, hg, hf, _⟩ := move_spec h
   cases st <;> first | exact hg | exact absurd hf (by decide)
 
 open KV.TransportConn in
-/-- the LTS accepts the normal life of a connection (non-vacuity), and refuses the seeded-mutant shape: releasing
-a connection to the idle stack after a failed exchange. -/
+/-- the LTS accepts the normal life of a connection (non-vacuity) and refuses the seeded-mutant shape — releasing a
+connection to the idle stack after a failed exchange — unless the regenerated fact says the code does exactly that,
+in which case the reuse the theorem excludes becomes an accepted behaviour: grab and serve on a dead connection. -/
 theorem transport_examples :
-    (run [] [.new 1 0, .recv 1, .done 1 true false, .release 1 true, .grab 1, .recv 1, .done 1 false false, .exit 1,
+    (run ⟨true⟩ [] [.new 1 0, .recv 1, .done 1 true false, .release 1 true, .grab 1, .recv 1, .done 1 false false, .exit 1,
              .new 2 0, .recv 2, .done 2 true false, .release 2 true, .closeIdle 0, .exit 2]).isSome = true ∧
-    run [] [.new 1 0, .recv 1, .done 1 false false, .release 1 true] = none ∧
-    run [] [.new 1 0, .recv 1, .done 1 false true, .release 1 true, .grab 1] ≠ none := by decide
+    run ⟨true⟩ [] [.new 1 0, .recv 1, .done 1 false false, .release 1 true] = none ∧
+    run ⟨true⟩ [] [.new 1 0, .recv 1, .done 1 false true, .release 1 true, .grab 1] ≠ none ∧
+    (run ⟨false⟩ [] [.new 1 0, .recv 1, .done 1 false false, .release 1 true, .exit 1, .grab 1]).isSome = false ∧
+    (run ⟨false⟩ [] [.new 1 0, .recv 1, .done 1 false false, .release 1 true, .grab 1, .exit 1]).isSome = false ∧
+    (run ⟨false⟩ [] [.new 1 0, .recv 1, .done 1 false false, .release 1 true, .grab 1]).isSome = true := by decide
 
 /-! ### inside the message set: no cut makes the fetch path panic (as far as the C02 decoder model reaches)
 
@@ -212,5 +310,280 @@ theorem fetch_cut_no_panic (items : List Item) (nb : Int) (hnb : 0 ≤ nb) (hwf 
   have hk : ¬ ((k : Int) < 0) := by omega
   simp only [responseTokens, containedRecords, hk, if_false, Int.toNat_natCast] at h
   exact ⟨h.2.1, h.1⟩
+
+section ReaderResume
+open KV.C02
+
+/-! ### resume_after_cut for the Reader, composed with the C02 machines
+
+The per-round facts come from C02 (`fetch_round` for complete responses, `single_fetch` for a response lost after k
+bytes — the same theorem `fetch_cut_no_panic` instantiates), the restart rule from ReaderLoop (`onAnswer … .cutAfter`,
+`deliver`: Conn closed, restart at last delivered + 1; `lost_round_is_reader_loop` ties `roundStep` to it).  The theorem
+is the invariant "delivered = log ∩ [start, position)" carried through ANY interleaving of complete and lost rounds. -/
+
+/-- what happens to the fetch the Reader issues at its position: a complete response within a byte budget (the Conn
+is kept, the next fetch is at the Conn's offset), or a response lost after `k` bytes of its message set (the records
+received completely are delivered, the Conn is closed, the Reader dials again and restarts at last delivered + 1 —
+ReaderLoop `onAnswer … (.cutAfter toks)`, `deliver`) -/
+inductive Round where
+  | complete (budget : Nat)
+  | lost (k : Nat)
+
+/-- (records delivered, next fetch position) of one round at position q -/
+def roundStep (items : List Item) (hwm q : Int) : Round → List Rec × Int
+  | .complete b => ((fetchOnce .fixed items hwm q b).1, (fetchOnce .fixed items hwm q b).2.1)
+  | .lost k =>
+    let d := (readAll .fixed false q hwm (truncate (allTokens (dropBefore q items)) k)).1
+    (d, match d.getLast? with | some x => x.1 + 1 | none => q)
+
+def resumeSeq (items : List Item) (hwm : Int) : Int → List Round → List Rec × Int
+  | q, [] => ([], q)
+  | q, r :: rs =>
+    ((roundStep items hwm q r).1 ++ (resumeSeq items hwm (roundStep items hwm q r).2 rs).1,
+     (resumeSeq items hwm (roundStep items hwm q r).2 rs).2)
+
+theorem le_getLast_of_pairwise {d : List Rec} (hp : d.Pairwise (fun a b => a.1 < b.1)) {x : Rec}
+    (hl : d.getLast? = some x) : ∀ r ∈ d, r.1 ≤ x.1 := by
+  induction d with
+  | nil => simp at hl
+  | cons a t ih =>
+    intro r hr
+    cases t with
+    | nil =>
+      simp only [List.getLast?_singleton, Option.some.injEq] at hl
+      simp only [List.mem_singleton] at hr
+      subst hl; subst hr; exact Int.le_refl _
+    | cons b t' =>
+      have hl' : (b :: t').getLast? = some x := by simpa [List.getLast?_cons_cons] using hl
+      have hp' := (List.pairwise_cons.mp hp)
+      rcases List.mem_cons.mp hr with rfl | hm
+      · have hx : x ∈ b :: t' := List.mem_of_getLast? hl'
+        have := hp'.1 x hx
+        omega
+      · exact ih hp'.2 hl' r hm
+
+/-- one round keeps the invariant "delivered = the log between the old and the new position", whether the response
+arrived completely or the connection was lost after any number of bytes -/
+theorem round_inv (items : List Item) (nb : Int) (hnb : 0 ≤ nb) (hwf : LWF nb items) (hwm q : Int) (hq : 0 ≤ q) (rd : Round) :
+    q ≤ (roundStep items hwm q rd).2 ∧
+    (∀ r ∈ (roundStep items hwm q rd).1, r ∈ allRecords items ∧ q ≤ r.1 ∧ r.1 < (roundStep items hwm q rd).2) ∧
+    (∀ r ∈ allRecords items, q ≤ r.1 → r.1 < (roundStep items hwm q rd).2 → r ∈ (roundStep items hwm q rd).1) ∧
+    (roundStep items hwm q rd).1.Pairwise (fun a b => a.1 < b.1) := by
+  cases rd with
+  | complete b =>
+    obtain ⟨f1, f2, f3, f4, _, _⟩ := fetch_round items nb hnb hwf hwm q hq b
+    exact ⟨f1, f2, f3, f4⟩
+  | lost k =>
+    by_cases hne : hwm = q
+    · simp [roundStep, readAll, hne]
+    · obtain ⟨d1, d2, d3, d4⟩ := dropBefore_spec q hwf
+      have hsafe : Safe q (dropBefore q items) := by
+        cases hsub : dropBefore q items with
+        | nil => trivial
+        | cons it rest => rw [hsub] at d1; exact safe_of_contract d1 (d4 it rest hsub)
+      have h := single_fetch (dropBefore q items) nb hnb d1 q hwm hq hsafe hne (k : Int) false
+      have hk : ¬ ((k : Int) < 0) := by omega
+      simp only [responseTokens, containedRecords, hk, if_false, Int.toNat_natCast] at h
+      obtain ⟨g1, _, g3, g4, g5⟩ := h
+      simp only [roundStep]
+      generalize hd : (readAll .fixed false q hwm (truncate (allTokens (dropBefore q items)) k)) = res at g1 g3 g4 g5 ⊢
+      have hmem : ∀ r ∈ res.1, r ∈ allRecords items ∧ q ≤ r.1 := by
+        intro r hr
+        rw [g1] at hr
+        have := List.mem_filter.mp hr
+        exact ⟨d3 r (contained_subset _ _ r this.1), by simpa using this.2⟩
+      cases hl : res.1.getLast? with
+      | none =>
+        have hnil : res.1 = [] := by simpa using hl
+        simp [hnil]
+      | some x =>
+        have hxm : x ∈ res.1 := List.mem_of_getLast? hl
+        have hle := le_getLast_of_pairwise g5 hl
+        simp only
+        refine ⟨by have := (hmem x hxm).2; omega, ?_, ?_, g5⟩
+        · intro r hr
+          have hm := hmem r hr
+          have hl2 := hle r hr
+          exact ⟨hm.1, hm.2, by omega⟩
+        · intro r hr h1 h2
+          rcases d2 r hr with hlt | hsub
+          · omega
+          · exact g3 r hsub h1 (by have := g4 x hxm; omega)
+
+/-- **resume_after_cut for the Reader**: for every well-formed log, every start position and every sequence of rounds —
+complete responses under any byte budgets and responses lost after any number of bytes, in any order — the
+concatenation of what is delivered is exactly the log between the start position and the final position: every
+delivered message is a stored record of that range, strictly increasing offsets (no duplicate, no reordering), and no
+stored record of that range is missing (no loss). -/
+theorem reader_resume_after_cut (items : List Item) (nb : Int) (hnb : 0 ≤ nb) (hwf : LWF nb items) (hwm : Int) :
+    ∀ (rounds : List Round) (start : Int), 0 ≤ start →
+      start ≤ (resumeSeq items hwm start rounds).2 ∧
+      (∀ r ∈ (resumeSeq items hwm start rounds).1, r ∈ allRecords items ∧ start ≤ r.1 ∧ r.1 < (resumeSeq items hwm start rounds).2) ∧
+      (∀ r ∈ allRecords items, start ≤ r.1 → r.1 < (resumeSeq items hwm start rounds).2 → r ∈ (resumeSeq items hwm start rounds).1) ∧
+      (resumeSeq items hwm start rounds).1.Pairwise (fun a b => a.1 < b.1) := by
+  intro rounds
+  induction rounds with
+  | nil => intro q _; simp [resumeSeq]
+  | cons rd rs ih =>
+    intro q hq
+    obtain ⟨f1, f2, f3, f4⟩ := round_inv items nb hnb hwf hwm q hq rd
+    obtain ⟨i1, i2, i3, i4⟩ := ih (roundStep items hwm q rd).2 (by omega)
+    simp only [resumeSeq]
+    refine ⟨by omega, ?_, ?_, ?_⟩
+    · intro r hr
+      simp only [List.mem_append] at hr
+      rcases hr with hr | hr
+      · have := f2 r hr; exact ⟨this.1, this.2.1, by omega⟩
+      · have := i2 r hr; exact ⟨this.1, by omega, this.2.2⟩
+    · intro r hr h1 h2
+      simp only [List.mem_append]
+      by_cases hlt : r.1 < (roundStep items hwm q rd).2
+      · exact Or.inl (f3 r hr h1 hlt)
+      · exact Or.inr (i3 r hr (by omega) h2)
+    · rw [List.pairwise_append]
+      refine ⟨f4, i4, ?_⟩
+      intro a ha c hc
+      have := (f2 a ha).2.2
+      have := (i2 c hc).2.1
+      omega
+
+
+/-- the `lost` round is ReaderLoop's transition for a connection cut (Model/ReaderLoop.lean `onAnswer … (.cutAfter toks)`):
+same records delivered, Conn closed, and `deliver` leaves the restart position where `roundStep` says -/
+theorem lost_round_is_reader_loop (s : RL) (items : List Item) (hwm first last : Int) (k : Nat)
+    (hq : s.connOff = s.offset) (hne : hwm ≠ s.offset) :
+    (match onAnswer .fixed s hwm first last (.cutAfter (truncate (allTokens (dropBefore s.offset items)) k)) with
+     | .go s' => s'.out = s.out ++ (roundStep items hwm s.offset (.lost k)).1 ∧ s'.connOpen = false ∧
+                 s'.offset = (roundStep items hwm s.offset (.lost k)).2
+     | .stop _ _ => False) := by
+  simp only [onAnswer, roundStep, readAll, hne, if_false, hq, deliver]
+  refine ⟨trivial, trivial, ?_⟩
+  cases (run Variant.fixed false s.offset { off := s.offset } (truncate (allTokens (dropBefore s.offset items)) k)).1.out.getLast? <;> rfl
+
+/-- non-vacuity on the C02 defect layout (compaction holes, empty batch, compressed batch): lost after 70 bytes,
+lost at once, then complete — everything from 100 on is delivered exactly once -/
+example : (resumeSeq d15Layout 112 100 [.lost 70, .lost 0, .complete 1000, .lost 61, .complete 1000]).1
+    = (allRecords d15Layout).filter (fun r => 100 ≤ r.1) := by decide
+
+end ReaderResume
+
+/-! ### resume_after_cut for the Writer, composed with the C01 machine
+
+The Writer LTS of C01 (Model/Writer.lean) lets the broker's decision on an attempt be `acked`, `lost applied?`
+(the acknowledgement never reaches the client) or `rejected code`, and relates it to the client-side result of the
+attempt by `consistent`: that relation is where "a lost response is an error for the client" enters C01 as a modelling
+assumption.  C17 discharges it: a produce response cut at any byte is never decoded into a result
+(`readResponse_cut_is_error`; Conn path `cut_is_error`), and the Transport never hands the failed connection to the next
+attempt (`resume_after_cut`).  C01 then says what follows: the attempt ends with an error, is retried only if
+retriable and within the attempt budget (`C01.retry_only_after_retriable`, `attempts_bounded`), and a second copy of a
+batch exists only after an acknowledgement was lost (`C01.dups_only_after_lost_ack`) — C01's retry rule. -/
+theorem writer_resume_after_cut {α : Type} (d : Decoder α) (s : Reader.RS) (hcut : s.inp.length < s.sz)
+    (cfg : Writer.Cfg) (st st' : Writer.State) (pw b k : Nat)
+    (hdone : Writer.step cfg st (.attemptDone pw b k 0) = some st') :
+    -- the cut response decodes to an error …
+    (d.run s).1 = none ∧
+    -- … while the Writer machine ends an attempt WITHOUT error only when the broker applied and acknowledged it:
+    (∃ P, st.pws pw = some P ∧ P.sender = .attempting b k (some .acked)) :=
+  ⟨readResponse_cut_is_error d s hcut, C01.ok_needs_broker_ack cfg st st' pw b k hdone⟩
+
+/-! ### split requests: one lost part never yields a result that looks complete -/
+
+section SplitMerge
+open KV.SplitMerge
+
+/-- strict merges (ListGroups, DescribeGroups, DescribeConfigs): the call succeeds iff every part did, and then it
+returns exactly the parts' entries in request order -/
+theorem mergeStrict_ok {α : Type} : ∀ (rs : List (Except String (List α))) (out : List α),
+    mergeStrict rs = .ok out ↔ (∀ r ∈ rs, isOk r = true) ∧ out = rs.flatMap entriesOf := by
+  intro rs
+  induction rs with
+  | nil =>
+    intro out
+    simp only [mergeStrict, Except.ok.injEq, List.not_mem_nil, false_imp_iff, implies_true, true_and, List.flatMap_nil]
+    exact eq_comm
+  | cons r rest ih =>
+    intro out
+    cases r with
+    | error e => simp [mergeStrict, isOk]
+    | ok xs =>
+      simp only [mergeStrict]
+      cases hm : mergeStrict rest with
+      | error e =>
+        simp only [reduceCtorEq, false_iff, not_and]
+        intro hall
+        have := (ih (rest.flatMap entriesOf)).mpr ⟨fun r hr => hall r (List.mem_cons_of_mem _ hr), rfl⟩
+        rw [hm] at this; cases this
+      | ok ys =>
+        have := (ih ys).mp hm
+        simp only [Except.ok.injEq, List.mem_cons, forall_eq_or_imp, isOk, true_and, List.flatMap_cons, entriesOf]
+        constructor
+        · intro h; exact ⟨this.1, by rw [← h, this.2]⟩
+        · intro h; rw [h.2, this.2]
+
+/-- … so a part whose response was lost (any cut position: `readResponse_cut_is_error`) fails the whole call -/
+theorem lost_part_fails_call {α : Type} (rs : List (Except String (List α))) (e : String) (h : .error e ∈ rs) :
+    ∃ e', mergeStrict rs = .error e' := by
+  cases hm : mergeStrict rs with
+  | error e' => exact ⟨e', rfl⟩
+  | ok out =>
+    have := ((mergeStrict_ok rs out).mp hm).1 _ h
+    simp [isOk] at this
+
+/-- the three Merge methods have the strict shape in the code as it is now (regenerated) -/
+theorem strict_merges_hold : Gen.ConnLegacy.strictMerges.all (·.2) = true := by decide
+
+end SplitMerge
+
+/-! ### the `Decoder` contract is a theorem about the structural decoder model
+
+`Decoder` above states what `readResponse_cut_is_error` needs from protocol.ReadResponse.  The C04 builder's structural
+model of the reflective decoder (Model/Codec.lean: decode.go's decoder{remain, err}, every schema type, tagged fields,
+record sets as opaque payloads; schemas and the bounded/unbounded configuration regenerated from /repo) satisfies it:
+frame accounting holds for every schema (Lemmas/CodecAcct.lean `da_all`, the mutual induction of C20's `ds_all` with
+another predicate), and `discardAll` closes the frame. -/
+
+section StructuralDecoder
+open KV.Codec KV.CodecAcct
+
+/-- ReadResponse after the size prefix, as a `Decoder` -/
+def codecDecoder (cfg : Cfg) (flex : Bool) (t : Ty) : Decoder (Int × Val) where
+  run := fun s =>
+    match respTail cfg flex t ⟨s.inp, s.sz⟩ with
+    | .ok r d => (some r, ⟨d.inp, d.remain⟩)
+    | _ => (none, s)
+  conserves := by
+    intro s
+    have h := respTail_acctz cfg flex t ⟨s.inp, s.sz⟩
+    cases hr : respTail cfg flex t ⟨s.inp, s.sz⟩ with
+    | ok r d =>
+      rw [hr] at h
+      obtain ⟨⟨pre, hp, hl⟩, hz⟩ := h
+      exact ⟨pre, hp, by simp only at hl ⊢; omega⟩
+    | error => exact Reader.Adv.refl s
+    | panic => exact Reader.Adv.refl s
+    | balloon => exact Reader.Adv.refl s
+  ok_after_discardAll := by
+    intro s a h
+    have hz := respTail_acctz cfg flex t ⟨s.inp, s.sz⟩
+    cases hr : respTail cfg flex t ⟨s.inp, s.sz⟩ with
+    | ok r d => rw [hr] at hz; simp only [hr]; exact hz.2
+    | error => simp [hr] at h
+    | panic => simp [hr] at h
+    | balloon => simp [hr] at h
+
+/-- every response schema, the decoder configuration of the current source tree, every cut position: no message -/
+theorem readResponse_cut_is_error_structural (flex : Bool) (t : Ty) (frame : Bytes)
+    (hframe : frame.length = 4 + (announced frame).toNat) (hpos : 0 ≤ announced frame) (k : Nat) (hk : k < frame.length)
+    (r : Int × Val) (d : Dec) : readResponse Gen.decoderCfg flex t (frame.take k) ≠ .ok r d :=
+  readResponse_cut_structural Gen.decoderCfg flex t frame hframe hpos k hk r d
+
+/-- and a decoded message means the whole announced frame, and nothing else, was consumed (Transport-side alignment) -/
+theorem readResponse_ok_aligned (flex : Bool) (t : Ty) (stream : Bytes) (r : Int × Val) (d : Dec)
+    (h : readResponse Gen.decoderCfg flex t stream = .ok r d) :
+    4 + (announced stream).toNat ≤ stream.length ∧ d.inp = stream.drop (4 + (announced stream).toNat) := by
+  have := readResponse_ok_consumes_frame Gen.decoderCfg flex t stream r d h
+  exact ⟨this.2.2.1, this.2.2.2.1⟩
+
+end StructuralDecoder
 
 end KV.C17
